@@ -13,8 +13,18 @@ pub mod verif;
 pub fn build(in_dir: &Path, out_dir: &Path, pointer_size: usize) -> anyhow::Result<()> {
     let mut semantic_state = semantic::SemanticState::new(pointer_size);
 
-    for path in glob::glob(&format!("{}/**/*.pyxis", in_dir.display()))?.filter_map(Result::ok) {
-        semantic_state.add_file(Path::new(&in_dir), &path)?;
+    // glob yields paths without `./`, so the prefix that is stripped from them must not have it either
+    let in_dir: std::path::PathBuf = in_dir
+        .components()
+        .filter(|c| !matches!(c, std::path::Component::CurDir))
+        .collect();
+    let pattern = if in_dir.as_os_str().is_empty() {
+        "**/*.pyxis".to_string()
+    } else {
+        format!("{}/**/*.pyxis", in_dir.display())
+    };
+    for path in glob::glob(&pattern)?.filter_map(Result::ok) {
+        semantic_state.add_file(&in_dir, &path)?;
     }
 
     let resolved_semantic_state = semantic_state.build()?;
